@@ -1,6 +1,6 @@
 # replay of a solver counterexample against the real library (exit 1 = reproduces)
 import sys, warnings
-sys.path.insert(0, '/repo')
+sys.path.insert(0, '/tmp/sr/C01-m5')
 warnings.simplefilter('ignore')
 import numpy as np
 from svgpathtools import *
@@ -13,8 +13,8 @@ def NOT_REPRODUCED(msg=''):
     print('not reproduced', msg); sys.exit(0)
 
 
-p = Path(Arc((2-100001j), (1+1j), 0.0, True, False, (1-100001j)), QuadraticBezier(-100001j, -100001j, 0j), QuadraticBezier(0j, 100000j, 0j))
-opts = dict(useSandT=True, use_closed_attrib=False, rel=False)
+p = Path(Arc((-20-1j), (1+1j), -40.0, True, False, (-40-3j)), QuadraticBezier((-40-3j), (-40-3j), (-20-1j)), QuadraticBezier((-20-1j), 1j, (-20-1j)))
+opts = dict(useSandT=True, use_closed_attrib=True, rel=False)
 d = p.d(**opts)
 try:
     q = parse_path(d)
